@@ -1251,6 +1251,20 @@ def check_c11(run):
         for pi, perm in enumerate(itertools.permutations(decls)):
             texts.append(specgen.print_spec(list(perm)))
             meta.append((100000 + xi, "base" if pi == 0 else "perm"))
+    # every trivia class at every gap between two tokens, one at a time (a token that swallows or
+    # chokes on what follows it does so at one particular gap: finding F13)
+    sweeps = [
+        [("const", "MAXN", "0x10"), ("enum", "col", [("RED", "0"), ("BLUE", "0x1F")]),
+         ("struct", "pt", [("unsigned int", "x", "[3]", False), ("pt", "next", "", True), ("opaque", "o", "<MAXN>", False), ("string", "s", "<>", False)]),
+         ("union", "uu", "col", "c", [(["RED", "BLUE"], ("data", "hyper", "h"))], ("falls", ["7"], ("void",))),
+         ("typedef", "opaque", "blob", "<8>"), ("typedef", "pt", "pts", "[2]")],
+    ]
+    if run.tier != "quick":
+        sweeps.append(decl_lists[0])
+    for si, decls in enumerate(sweeps):
+        for text, gap, triv in specgen.gap_sweep(decls, specgen.TRIVIA_QUICK if run.tier == "quick" else None):
+            texts.append(text)
+            meta.append((200000 + si, "base" if gap is None else "layout"))
     base_di = len(decl_lists)
     graphs = specgen.graph_specs(2)
     grng = random.Random(run.seed + 99)
